@@ -48,7 +48,6 @@ def check(ctx):
     )
     ctx.assumptions += [
         "the storage client is only reached through elexmodel.handlers.s3 (sinks are recognised by method name)",
-        "model_parameters supplied by the caller do not override 'save_conformalization' (dict.update of user settings)",
     ]
     roots = [ctx.fn(CLIENT, "ModelClient.get_estimates"),
              ctx.fn(CLIENT, "ModelClient.get_national_summary_votes_estimates"),
